@@ -121,7 +121,7 @@ func (w *World) fail(kind, detail string) {
 	w.Fail = append(w.Fail, Failure{Kind: kind, Detail: detail, Step: w.stepNo})
 }
 
-func (w *World) rep(i int) *replica.Replica {
+func (w *World) Rep(i int) *replica.Replica {
 	for len(w.Reps) <= i {
 		idx := len(w.Reps)
 		r := replica.New(fmt.Sprintf("r%d", idx), w.Project.PublicKey,
@@ -188,7 +188,7 @@ func (w *World) Exec(st Step) {
 		ev.Skipped = true
 		return
 	}
-	r := w.rep(st.R)
+	r := w.Rep(st.R)
 	switch st.T {
 	case "attach":
 		if !r.Activated {
